@@ -25,7 +25,7 @@ func init() {
 		Explain: "The statement as a whole depends on which references survive into the rendered tree (references inside image alt text or inside the body of an unreferenced footnote are counted but not rendered — the dangling back-links reported in the property text); that is a property of documents and is NOT decided. Decided are the structural conditions without which no document could be consistent: (T) the id written for a reference and the href written for its back-link, and the href written for a reference and the id written for its footnote item, are built from the same template — the same sequence of constants, the same id prefix and the same node fields (Index, RefIndex under the same condition), extracted from the sink model's attribute contexts; (N) a footnote's Index is assigned only from the list counter immediately after incrementing it and only while the footnote is still unnumbered, so numbers are 1..Count in order of first reference; definitions still unnumbered are removed from the list and the list is sorted by a comparator on Index; (B) the transformer creates, for a footnote with reference count c, exactly the back-links RefIndex 0..c-1 with that Index, and numbers the references of one footnote 0,1,2,… in list order by the same counter discipline. (A) the inline parser never numbers a definition without returning the reference node in the same call; (I) no loop of the footnote code advances its sibling cursor through a node it detached in the same iteration. Not decided: that every counted reference is rendered (known deviation), distinctness of generated ids from user ids, nesting of footnotes in footnotes.",
 		Trusted: []string{"sink model and HTML lexer-state dataflow (DESIGN 2.5)", "SortChildren sorts by the comparator (C13)"},
 		Assumes: []string{"built-in footnote extension only"},
-		Rules: []func(*World, *Report){ruleFootnoteTemplates, ruleFootnoteNumbering, ruleNumberedMeansReferenced,
+		Rules: []func(*World, *Report){ruleFootnoteTemplates, ruleFootnoteNumbering, ruleNumberedMeansReferenced, ruleSortInsertionPoint,
 			ruleIterationSafety("C16-I", func(w *World, fn *ssa.Function) bool { return inSourceFile(w, fn, "extension/footnote.go") }, 2)},
 	})
 }
@@ -885,4 +885,150 @@ func ruleNumberedMeansReferenced(w *World, r *Report) {
 		}
 	}
 	r.Expect("functions assigning Footnote.Index", n, 1)
+}
+
+// ---- stale cursor over a hand-linked list (field links) ---------------------------------------------------------
+
+// storesParamField reports whether fn (or a module function it hands the parameter to, up to depth 3) stores into
+// field `field` of its j-th parameter.
+func (w *World) storesParamField(fn *ssa.Function, j int, field *types.Var, depth int) bool {
+	if fn == nil || len(fn.Blocks) == 0 || j >= len(fn.Params) || depth > 3 {
+		return false
+	}
+	p := fn.Params[j]
+	for _, b := range fn.Blocks {
+		for _, ins := range b.Instrs {
+			switch x := ins.(type) {
+			case *ssa.Store:
+				if fa, ok := x.Addr.(*ssa.FieldAddr); ok && fa.X == ssa.Value(p) {
+					if _, f := fieldOfAddr(fa); f == field {
+						return true
+					}
+				}
+			case ssa.CallInstruction:
+				cal := x.Common().StaticCallee()
+				if cal == nil || !w.InModule(cal) {
+					continue
+				}
+				for k, a := range x.Common().Args {
+					if a == ssa.Value(p) && w.storesParamField(cal, k, field, depth+1) {
+						return true
+					}
+				}
+			}
+		}
+	}
+	return false
+}
+
+type staleFieldCursor struct {
+	step   ssa.Instruction
+	call   ssa.Instruction
+	field  string
+	callee string
+}
+
+// staleFieldCursorLoops: loops whose cursor c (pointer to a struct) is advanced by reading the link field c.F after a
+// call in the same iteration that hands c to a module function which stores into that very field of its parameter
+// (an unlink helper). The loop then follows the link the helper has just overwritten.
+func (w *World) staleFieldCursorLoops(fn *ssa.Function) (cursors int, out []staleFieldCursor) {
+	loops, _ := naturalLoops(fn)
+	for _, l := range loops {
+		for _, ins := range l.header.Instrs {
+			phi, ok := ins.(*ssa.Phi)
+			if !ok {
+				break
+			}
+			pt, ok := phi.Type().Underlying().(*types.Pointer)
+			if !ok {
+				continue
+			}
+			if _, ok := pt.Elem().Underlying().(*types.Struct); !ok {
+				continue
+			}
+			for i, e := range phi.Edges {
+				if !l.body[l.header.Preds[i]] {
+					continue
+				}
+				ld, ok := e.(*ssa.UnOp)
+				if !ok || ld.Op != token.MUL {
+					continue
+				}
+				fa, ok := ld.X.(*ssa.FieldAddr)
+				if !ok || fa.X != ssa.Value(phi) {
+					continue
+				}
+				_, field := fieldOfAddr(fa)
+				cursors++
+				for b := range l.body {
+					for _, di := range b.Instrs {
+						c, ok := di.(ssa.CallInstruction)
+						if !ok {
+							continue
+						}
+						cal := c.Common().StaticCallee()
+						if cal == nil || !w.InModule(cal) {
+							continue
+						}
+						for k, a := range c.Common().Args {
+							if a == ssa.Value(phi) && w.storesParamField(cal, k, field, 0) && reachesWithin(di, ld, l) {
+								out = append(out, staleFieldCursor{ld, di, field.Name(), cal.Name()})
+							}
+						}
+					}
+				}
+			}
+		}
+	}
+	return
+}
+
+// ruleStaleCursorModule (C05-I): the iterate-and-unlink discipline for the whole module — node sibling cursors and
+// cursors over hand-linked bookkeeping lists (link-label states, delimiters).
+func ruleStaleCursorModule(w *World, r *Report) {
+	r.Rule("C05-I", "Iterate-and-unlink: no loop advances its cursor through a link that a call earlier in the same iteration has overwritten — (a) in packages parser and ast (the core tree builders; the footnote and table extensions are covered by C16-I/C17-I), c = c.NextSibling() after a call that detaches the node c (RemoveChild/ReplaceChild/AppendChild/Insert* of c: the removed node's sibling links are cleared), (b) module-wide, c = c.F for a link field F after c was handed to a module function that stores into F of that parameter (an unlink helper such as the link-label-state remover). Such a loop stops after its first element: the remaining bookkeeping nodes (bracket states, delimiters) stay in the tree Parse returns, or the remaining siblings are never processed.")
+	nNode, nField := 0, 0
+	for _, fn := range w.Funcs {
+		if fn.Synthetic != "" {
+			continue
+		}
+		key := w.FnKey(fn)
+		loops, _ := naturalLoops(fn)
+		sib := 0
+		for _, l := range loops {
+			for _, ins := range l.header.Instrs {
+				if phi, ok := ins.(*ssa.Phi); ok {
+					if _, isI := phi.Type().Underlying().(*types.Interface); isI {
+						for i, e := range phi.Edges {
+							if c, ok := e.(*ssa.Call); ok && l.body[l.header.Preds[i]] && c.Common().IsInvoke() && c.Common().Method.Name() == "NextSibling" && c.Common().Value == ssa.Value(phi) {
+								sib++
+							}
+						}
+					}
+				}
+			}
+		}
+		if pk := w.PkgOf(fn); sib > 0 && (pk == modPath+"/parser" || pk == modPath+"/ast") {
+			nNode += sib
+			bad := staleCursorLoops(fn)
+			if len(bad) == 0 {
+				r.OK(key+": sibling cursors", w.FnPos(fn), fmt.Sprintf("%d cursor(s) advanced by NextSibling(); none after a detaching call on the cursor", sib))
+			}
+			for _, sc := range bad {
+				r.Bad(key+": sibling cursor advanced after detach", w.InstrPos(sc.step), fmt.Sprintf("the cursor is advanced with NextSibling() after the call at %s detached it in the same iteration: the loop ends after the first such node", w.InstrPos(sc.detach)))
+			}
+		}
+		nf, badf := w.staleFieldCursorLoops(fn)
+		if nf > 0 {
+			nField += nf
+			if len(badf) == 0 {
+				r.OK(key+": link-field cursors", w.FnPos(fn), fmt.Sprintf("%d cursor(s) advanced by a link field; none after an unlinking call on the cursor", nf))
+			}
+			for _, sc := range badf {
+				r.Bad(key+": link-field cursor advanced after unlink", w.InstrPos(sc.step), fmt.Sprintf("the cursor is advanced by reading its field %s after the call of %s at %s, which stores into that field of the cursor: the loop follows the overwritten link", sc.field, sc.callee, w.InstrPos(sc.call)))
+			}
+		}
+	}
+	r.Expect("sibling cursors advanced by NextSibling() in parser and ast", nNode, 8)
+	r.Expect("cursors advanced by a link field", nField, 3)
 }
